@@ -4,9 +4,10 @@ Fragment: one iteration of the loop over the rankings of `Dataset.get_bucket_ids
 any state of the matrix): for every element e of the ranking, cell (id(e), index of the ranking) receives the index of e's
 bucket; no other cell changes.  `self.mapping_elem_id.get(e)` is the uninterpreted IDOF(e), required to be injective on
 the ranking's elements and within the rows of the matrix (established by Dataset._analyse_rankings: bounded tier).
-`get_positions` iterates over `ranking.positions.items()` (a dict of the Ranking object) and is decided by the bounded tier.
+`get_positions` is the same statement over `ranking.positions.items()` (the dict element -> 1-based rank that
+Ranking.__init__ builds, proved there): cell (id(e), index of the ranking) receives position - 1.
 """
-from pyvc.types import Int, Obj, Arr, SetList
+from pyvc.types import Int, Obj, Arr, SetList, IntDict
 
 F = "corankco/dataset.py::Dataset."
 
@@ -55,4 +56,39 @@ def register(reg):
             }),
         },
         notes="Dataset.get_bucket_ids, one ranking (fragment: body of the loop over the rankings)",
+    )
+    register_positions(reg)
+
+
+def register_positions(reg):
+    HASP = "has(ranking.positions, %s)"
+    reg.contract(
+        F + "get_positions#one_ranking", props=["C02"],
+        fragment={"body_of_loop": 1},
+        params=dict(self=Obj, ranking=Obj, id_ranking=Int, positions=Arr(Int, 2)),
+        fields={"ranking.positions": IntDict(Int)},
+        opaque_glue=True,
+        opaque_calls={"get": {"fn": "IDOF", "args": [0], "ret": "int"}},
+        requires={
+            "ids_in_range": "forall(lambda e: implies(%s, 0 <= IDOF(e) and IDOF(e) < len(positions)))" % (HASP % "e"),
+            "ids_injective": "forall(lambda e1, e2: implies(%s and %s and e1 != e2, IDOF(e1) != IDOF(e2)))"
+                             % (HASP % "e1", HASP % "e2"),
+            "column": "0 <= id_ranking and id_ranking < len(positions[0])",
+        },
+        modifies=["positions"],
+        ensures={
+            "written": "forall(lambda e: implies(%s, positions[IDOF(e)][old(id_ranking)] == ranking.positions[e] - 1))" % (HASP % "e"),
+            "frame": "forall(lambda a, c: implies(c != old(id_ranking) or not exists(lambda e: %s and IDOF(e) == a), "
+                     "positions[a][c] == old(positions)[a][c]))" % (HASP % "e"),
+            "next_column": "id_ranking == old(id_ranking) + 1",
+        },
+        loops={
+            2: dict(snap={"col": "id_ranking"}, inv={
+                "col": "id_ranking == col",
+                "written": "forall(lambda e: implies(seen_elem[e], positions[IDOF(e)][id_ranking] == ranking.positions[e] - 1))",
+                "frame": "forall(lambda a, c: implies(c != id_ranking or not exists(lambda e: seen_elem[e] and IDOF(e) == a), "
+                         "positions[a][c] == old(positions)[a][c]))",
+            }),
+        },
+        notes="Dataset.get_positions, one ranking (fragment: body of the loop over the rankings)",
     )
